@@ -267,7 +267,7 @@ theorem combineDouble_np {walk : Nat → Store → M Store} {f : Nat} (hw : Walk
   have hq32 := hq.lt32
   have hp0 : 0 < p := by have := hp.1; omega
   have hq0 : 0 < q := by have := hq.1; omega
-  obtain ⟨hrt, hrn, hrf, hrl⟩ := hr
+  obtain ⟨hrt, hrn, hrf, hrl, hrte⟩ := hr
   unfold combineDouble
   split
   · obtain ⟨s1, hs1⟩ := addCycle_total (r := { r with cofactor := 1, factors := r.factors ++ [(toI64 p, 2)] })
@@ -345,13 +345,14 @@ theorem combineDouble_np {walk : Nat → Store → M Store} {f : Nat} (hw : Walk
       rw [hb]
       simp only [ok_bind]
       have hi0 : Inv { s with nCombined12 := s.nCombined12 + 1 } := ⟨hi.cyc, hi.par, hi.dbl, hi.rev⟩
-      have hi20 : Inv2 { s with nCombined12 := s.nCombined12 + 1 } := ⟨hi2.par, hi2.dbl⟩
+      have hi20 : Inv2 { s with nCombined12 := s.nCombined12 + 1 } := ⟨hi2.par, hi2.dbl, hi2.cyc⟩
       have hI : Inv ({ s with nCombined12 := s.nCombined12 + 1 }.setPartial q b) := by
         refine inv_setPartial hi0 hq1 hq32 ?_
         rw [← hcof]
         exact goodP_of_pack hb h3.2.1 h3.2.2.1 (lt_of_lt_of_le h3.2.2.2.1 hn) h3.1
       have hI2 : Inv2 ({ s with nCombined12 := s.nCombined12 + 1 }.setPartial q b) :=
-        inv2_setPartial hi20 hq (goodF_of_pack hb h3.2.1 h3.2.2.1 h3'.1 (by rw [h3'.2]; omega))
+        inv2_setPartial hi20 hq (goodF_of_pack hb h3.2.1 h3.2.2.1 h3'.1 (by rw [h3'.2]; omega)
+          (combine_tailEven hrq hrte))
       rw [Nat.mod_eq_of_lt hq32]
       exact NP_bind (hw.np q _ hI hI2 hn hn0 (pkey_setPartial.mpr (Or.inl rfl)) hlen)
         (fun _ _ => NP_pure _)
@@ -374,13 +375,14 @@ theorem combineDouble_np {walk : Nat → Store → M Store} {f : Nat} (hw : Walk
       rw [hb]
       simp only [ok_bind]
       have hi0 : Inv { s with nCombined12 := s.nCombined12 + 1 } := ⟨hi.cyc, hi.par, hi.dbl, hi.rev⟩
-      have hi20 : Inv2 { s with nCombined12 := s.nCombined12 + 1 } := ⟨hi2.par, hi2.dbl⟩
+      have hi20 : Inv2 { s with nCombined12 := s.nCombined12 + 1 } := ⟨hi2.par, hi2.dbl, hi2.cyc⟩
       have hI : Inv ({ s with nCombined12 := s.nCombined12 + 1 }.setPartial p b) := by
         refine inv_setPartial hi0 hp1 hp32 ?_
         rw [← hcof]
         exact goodP_of_pack hb h3.2.1 h3.2.2.1 (lt_of_lt_of_le h3.2.2.2.1 hn) h3.1
       have hI2 : Inv2 ({ s with nCombined12 := s.nCombined12 + 1 }.setPartial p b) :=
-        inv2_setPartial hi20 hp (goodF_of_pack hb h3.2.1 h3.2.2.1 h3'.1 (by rw [h3'.2]; omega))
+        inv2_setPartial hi20 hp (goodF_of_pack hb h3.2.1 h3.2.2.1 h3'.1 (by rw [h3'.2]; omega)
+          (combine_tailEven hrp hrte))
       rw [Nat.mod_eq_of_lt hp32]
       exact NP_bind (hw.np p _ hI hI2 hn hn0 (pkey_setPartial.mpr (Or.inl rfl)) hlen)
         (fun _ _ => NP_pure _)
@@ -589,7 +591,7 @@ theorem walkDoubles_all : ∀ (fuel : Nat), WalkAll (walkDoubles fuel) fuel := b
 theorem add_np {r : Relation} {pq : Option (Nat × Nat)} {s : Store} (hi : Inv s) (hi2 : Inv2 s)
     (hn : s.n ≤ X512) (hin : InputOK2 s r pq) : NP (add r pq s) := by
   have hrel := hin.rel
-  obtain ⟨⟨hrt, hrv, hrn, hpair⟩, hx, hrf, hrl, hsingle, hpairOK⟩ := hin
+  obtain ⟨⟨hrt, hrv, hrn, hpair⟩, hx, hrf, hrl, hsingle, hpairOK, hrte⟩ := hin
   have hn0 : 0 < s.n := by omega
   unfold add
   rw [if_neg (not_not.mpr hx)]
@@ -602,7 +604,7 @@ theorem add_np {r : Relation} {pq : Option (Nat × Nat)} {s : Store} (hi : Inv s
     · rename_i hlt
       have hl := hsingle hc1 hlt
       have hi0 : Inv { s with nPartials := s.nPartials + 1 } := ⟨hi.cyc, hi.par, hi.dbl, hi.rev⟩
-      have hi20 : Inv2 { s with nPartials := s.nPartials + 1 } := ⟨hi2.par, hi2.dbl⟩
+      have hi20 : Inv2 { s with nPartials := s.nPartials + 1 } := ⟨hi2.par, hi2.dbl, hi2.cyc⟩
       refine NP_bind (combineSingle_np hi0 hi20 hn0 hrel hrv) (fun res hres => ?_)
       have hk1 : Keeps { s with nPartials := s.nPartials + 1 } res.2 :=
         combineSingle_keeps (done := res.1) (s' := res.2) hres hi0 hn hrt hrn hrv hx
@@ -619,7 +621,7 @@ theorem add_np {r : Relation} {pq : Option (Nat × Nat)} {s : Store} (hi : Inv s
           rw [hk1.1]
           exact goodP_of_pack hb hrt hrn (lt_of_lt_of_le hx hn) hrv
         have hI2 : Inv2 (res.2.setPartial r.cofactor b) :=
-          inv2_setPartial j1 hl (goodF_of_pack hb hrt hrn hrf hrl)
+          inv2_setPartial j1 hl (goodF_of_pack hb hrt hrn hrf hrl hrte)
         exact (walkDoubles_all _).np _ _ hI hI2 hn1
           (by show 0 < res.2.n; rw [hk1.1]; exact hn0)
           (pkey_setPartial.mpr (Or.inl rfl)) (Nat.lt_succ_self _)
@@ -631,17 +633,13 @@ theorem add_np {r : Relation} {pq : Option (Nat × Nat)} {s : Store} (hi : Inv s
         obtain ⟨hp, hq⟩ := hpairOK p q rfl (by omega)
         rw [if_neg (by have := hp.lt32; have := hq.lt32; omega)]
         have hi0 : Inv { s with nDoubles := s.nDoubles + 1 } := ⟨hi.cyc, hi.par, hi.dbl, hi.rev⟩
-        have hi20 : Inv2 { s with nDoubles := s.nDoubles + 1 } := ⟨hi2.par, hi2.dbl⟩
+        have hi20 : Inv2 { s with nDoubles := s.nDoubles + 1 } := ⟨hi2.par, hi2.dbl, hi2.cyc⟩
         refine NP_bind (combineDouble_np (walkDoubles_all _) hi0 hi20 hn hn0 hrel hrv hc hp hq
           (Nat.lt_succ_self _)) (fun res _ => ?_)
         split
         · exact NP_pure _
         · obtain ⟨b, hb⟩ := pack_total hrf
           rw [hb]; exact NP_ok _
-
-/-- contract of a whole history, complete form -/
-def HistoryOK2 (n maxlarge : Nat) (ops : List (Relation × Option (Nat × Nat))) : Prop :=
-  ∀ op ∈ ops, ∀ s : Store, s.n = n → s.maxlarge = maxlarge → InputOK2 s op.1 op.2
 
 theorem runHistory_np : ∀ (ops : List (Relation × Option (Nat × Nat))) (s : Store),
     Inv s → Inv2 s → s.n ≤ X512 → HistoryOK2 s.n s.maxlarge ops → NP (runHistory ops s) := by
